@@ -106,6 +106,18 @@ func newC05World(c *lib.Ctx) *c05World {
 		w.fresh[i] = uMustDB(c, cmds)
 		w.cmds[i] = uMustDB(c, cmds).Commands
 	}
+	// query 7 drives the 40-entry plan: choose (deterministically, first in enumeration order) a query whose
+	// NLP answer at limit 2 is NOT the head of its answer at limit 20, i.e. one that makes the
+	// limit-dependent re-rank window observable
+	o2, o20 := Opts{Limit: 2, UseNLP: true}, Opts{Limit: 20, UseNLP: true}
+	for _, q := range append([]string{c05Queries[7]}, uQueries(uWords, 2)...) {
+		a := uDigest(uItems(w.fresh[3], w.fresh[3].SearchUniversal(q, o2)))
+		b := uDigest(uItems(w.fresh[3], w.fresh[3].SearchUniversal(q, o20)))
+		if a != "" && !strings.HasPrefix(b, a) {
+			c05Queries[7] = q
+			break
+		}
+	}
 	return w
 }
 
@@ -188,7 +200,15 @@ func c05Run1(w *c05World, cs c05Case) (*lib.Violation, string) {
 			verAt[i] = cur
 			switch op.Kind {
 			case "search":
-				got := uDigest(uItems(mdb.Database, search(c05Queries[op.Q], w.opts[op.O].O)))
+				rs := search(c05Queries[op.Q], w.opts[op.O].O)
+				got := uDigest(uItems(mdb.Database, rs))
+				// the caller owns what it was given (the CLI re-sorts it in place): scramble it
+				for a, b := 0, len(rs)-1; a < b; a, b = a+1, b-1 {
+					rs[a], rs[b] = rs[b], rs[a]
+				}
+				for k := range rs {
+					rs[k].Score = -rs[k].Score - 1
+				}
 				want := w.expected(cur, op.Q, op.O)
 				obs += got + "/"
 				if got != want {
@@ -378,9 +398,9 @@ func init() {
 	_ = strconv.Itoa
 	lib.Register(&lib.Check{
 		ID: "C05", Level: "model_checking",
-		Rule:      "sequence-mode exploration: every history ending in a search of length <=3 over the full alphabet (7 queries incl. case variant, padded variants, a typo and a 6-term query x 12 option settings = base + one single-field delta per SearchOptions field, + invalidate, disable, enable, sweep, advance TTL/2, advance TTL+1s, replace database A/B/C (C has A's size) = 93 operations) + every history of length <=5 (thorough 6) over 3 searches and all 9 mutators (long runs of switches, sweeps, clock advances and replacements) + every history of length <=3 (thorough 4) on a 40-entry database over 10 searches with limits {0,2,3,20,25} with and without NLP (limit-dependent re-rank window) and 5 mutators + (thorough) of length <=4 over the 38+8 most colliding operations; entry points SearchWithOptionsAndCache and SearchWithOptionsAndMonitoring; cold and warm start; virtual clock. After every search the answer must equal, bit for bit, SearchUniversal on a freshly loaded copy of the current commands. evaluations = histories executed on the real objects (= traces validated); non-trivial = histories with a distinct sequence of answers",
+		Rule:      "sequence-mode exploration: every history ending in a search of length <=3 over the full alphabet (7 queries incl. case variant, padded variants, a typo and a 6-term query x 12 option settings = base + one single-field delta per SearchOptions field, + invalidate, disable, enable, sweep, advance TTL/2, advance TTL+1s, replace database A/B/C (C has A's size) = 93 operations) + every history of length <=5 (thorough 6) over 3 searches and all 9 mutators (long runs of switches, sweeps, clock advances and replacements) + every history of length <=3 (thorough 4) on a 40-entry database over 10 searches with limits {0,2,3,20,25} with and without NLP (limit-dependent re-rank window) and 5 mutators + (thorough) of length <=4 over the 38+8 most colliding operations; entry points SearchWithOptionsAndCache and SearchWithOptionsAndMonitoring; cold and warm start; virtual clock. After every search the caller scrambles the slice it was given (as the CLI's in-place re-sort does), and the answer must equal, bit for bit, SearchUniversal on a freshly loaded copy of the current commands. evaluations = histories executed on the real objects (= traces validated); non-trivial = histories with a distinct sequence of answers",
 		Assume:    []string{"host pinned, map order pinned, clock virtual (vtime)", "non-finite option values are outside the option domain"},
-		QuickSecs: 200, ThorSecs: 1800,
+		QuickSecs: 300, ThorSecs: 2400,
 		Run: c05Run,
 		Replay: func(c *lib.Ctx, raw json.RawMessage) []lib.Violation {
 			defer vhost.Set("")
